@@ -36,6 +36,7 @@ type FaultPlan struct {
 	ByIndex map[int]FaultKind
 	ByNode  map[string]FaultKind // every k8s get/update/delete naming this node
 	ByAPI   map[string]FaultKind // every call of this API
+	ByNodeUpdate map[string]FaultKind // every k8s update naming this node (reads succeed)
 	Ordinal map[string]map[int]FaultKind // the k-th (1-based) call of an API
 	counter int
 	perAPI  map[string]int
@@ -48,7 +49,7 @@ func (p *FaultPlan) Reset() { p.counter = 0; p.Hits = 0; p.perAPI = map[string]i
 func (p *FaultPlan) Calls() int { return p.counter }
 
 func (p *FaultPlan) Empty() bool {
-	return p == nil || (len(p.ByIndex) == 0 && len(p.ByNode) == 0 && len(p.ByAPI) == 0 && len(p.Ordinal) == 0)
+	return p == nil || (len(p.ByIndex) == 0 && len(p.ByNode) == 0 && len(p.ByAPI) == 0 && len(p.Ordinal) == 0 && len(p.ByNodeUpdate) == 0)
 }
 
 func (p *FaultPlan) next(api, target string) FaultKind {
@@ -69,6 +70,8 @@ func (p *FaultPlan) next(api, target string) FaultKind {
 	} else if f, ok := p.ByAPI[api]; ok {
 		k = f
 	} else if f, ok := p.ByNode[target]; ok && (api == K8sGet || api == K8sUpdate || api == K8sDelete) {
+		k = f
+	} else if f, ok := p.ByNodeUpdate[target]; ok && api == K8sUpdate {
 		k = f
 	}
 	if k != FNone {
